@@ -1,7 +1,9 @@
 (* C18 — derivatives of value-typed and piecewise expressions.  Property theorems only. *)
 From Coq Require Import List Arith Bool.
 Import ListNotations.
-From Exmex.Model Require Import Base EvalBinary Lexer Flat Deep Convert Calc Partial.
+From Exmex.Model Require Import Base EvalBinary Lexer Flat Deep Convert Calc Partial ValOps.
+From Exmex.Spec Require Import RefSem.
+From Exmex.Proofs Require Import DeepSem DeepSubs C11Main DeepOps Piecewise.
 From Exmex.Gen Require Import Tables.
 Open Scope nat_scope.
 
@@ -42,5 +44,83 @@ Proof.
   inversion H; subst. split; reflexivity.
 Qed.
 
+(* Analytic half, branch selection (Proofs/Piecewise.v).  For every data type and table in which `if` and `else` are binary
+   operators, and all value/derivative pairs f (then-branch), g (condition), h (else-branch) of closed deep expressions, the
+   rules build for `(a if c) else b` a pair whose named denotation is
+       value       else (if f.val g.val) h.val            derivative   else (if f.der g.val) h.der ;
+   and in every data type whose `if` yields its left operand under a true condition and `none` under a false one and whose
+   `else` yields its right operand exactly for `none`, the derivative of the piecewise expression denotes the derivative of
+   the then-branch at every environment where the condition holds and the derivative of the else-branch where it does not.
+   The value type is such a data type (C18_value_type_branches, on the model of the value operators that C16 ties to the
+   implementation).  Not in the theorems: that f.der / h.der denote the derivatives of the branches for the value type
+   (arithmetic and elementary functions "exactly as for floats": the float statement is C05; the promotion rules of the value
+   type are covered by mode c18v). *)
+Theorem C18_piecewise_pair :
+  forall (D : Type) (C : carrier D) (DC : dcarrier D) (tb : optable) (R : D -> D -> Prop),
+  (forall a, R a a) -> (forall a b, R a b -> R b a) -> (forall a b c, R a b -> R b c -> R a c) ->
+  (forall k a a' b b', R a a' -> R b b' -> R (binf C k a b) (binf C k a' b')) ->
+  (forall k a a', R a a' -> R (unf C k a) (unf C k a')) ->
+  (forall k, comm_of tb k = true -> forall a b c, R (binf C k (binf C k a b) c) (binf C k a (binf C k b c))) ->
+  forall kif kelse : nat,
+  find_op n_if tb 0 = Some kif -> is_bin tb kif = true -> find_op n_else tb 0 = Some kelse -> is_bin tb kelse = true ->
+  forall f g h : valder (D:=D),
+  dclosed (tflagged tb) (dvars (vd_val f)) (vd_val f) -> dclosed (tflagged tb) (dvars (vd_der f)) (vd_der f) ->
+  dclosed (tflagged tb) (dvars (vd_val g)) (vd_val g) ->
+  dclosed (tflagged tb) (dvars (vd_val h)) (vd_val h) -> dclosed (tflagged tb) (dvars (vd_der h)) (vd_der h) ->
+  exists r1 r2,
+    apply_brule C DC tb BCond n_if f g = Ok r1 /\ apply_brule C DC tb BPerOperand n_else r1 h = Ok r2 /\
+    dclosed (tflagged tb) (dvars (vd_val r2)) (vd_val r2) /\ dclosed (tflagged tb) (dvars (vd_der r2)) (vd_der r2) /\
+    forall rho,
+      R (dden C (nlook rho) (vd_val r2)) (binf C kelse (binf C kif (dden C (nlook rho) (vd_val f)) (dden C (nlook rho) (vd_val g))) (dden C (nlook rho) (vd_val h))) /\
+      R (dden C (nlook rho) (vd_der r2)) (binf C kelse (binf C kif (dden C (nlook rho) (vd_der f)) (dden C (nlook rho) (vd_val g))) (dden C (nlook rho) (vd_der h))).
+Proof. exact @piecewise_pair. Qed.
+
+Theorem C18_piecewise_derivative_is_branchwise :
+  forall (D : Type) (C : carrier D) (DC : dcarrier D) (tb : optable) (R : D -> D -> Prop),
+  (forall a, R a a) -> (forall a b, R a b -> R b a) -> (forall a b c, R a b -> R b c -> R a c) ->
+  (forall k a a' b b', R a a' -> R b b' -> R (binf C k a b) (binf C k a' b')) ->
+  (forall k a a', R a a' -> R (unf C k a) (unf C k a')) ->
+  (forall k, comm_of tb k = true -> forall a b c, R (binf C k (binf C k a b) c) (binf C k a (binf C k b c))) ->
+  forall kif kelse : nat,
+  find_op n_if tb 0 = Some kif -> is_bin tb kif = true -> find_op n_else tb 0 = Some kelse -> is_bin tb kelse = true ->
+  forall (none : D) (istrue isfalse : D -> Prop),
+  (forall v c, istrue c -> binf C kif v c = v) -> (forall v c, isfalse c -> binf C kif v c = none) ->
+  (forall v, binf C kelse none v = v) -> (forall x v, x <> none -> binf C kelse x v = x) ->
+  forall f g h : valder (D:=D),
+  dclosed (tflagged tb) (dvars (vd_val f)) (vd_val f) -> dclosed (tflagged tb) (dvars (vd_der f)) (vd_der f) ->
+  dclosed (tflagged tb) (dvars (vd_val g)) (vd_val g) ->
+  dclosed (tflagged tb) (dvars (vd_val h)) (vd_val h) -> dclosed (tflagged tb) (dvars (vd_der h)) (vd_der h) ->
+  exists r1 r2,
+    apply_brule C DC tb BCond n_if f g = Ok r1 /\ apply_brule C DC tb BPerOperand n_else r1 h = Ok r2 /\
+    forall rho,
+      (istrue (dden C (nlook rho) (vd_val g)) ->
+         (dden C (nlook rho) (vd_val f) <> none -> R (dden C (nlook rho) (vd_val r2)) (dden C (nlook rho) (vd_val f))) /\
+         (dden C (nlook rho) (vd_der f) <> none -> R (dden C (nlook rho) (vd_der r2)) (dden C (nlook rho) (vd_der f)))) /\
+      (isfalse (dden C (nlook rho) (vd_val g)) ->
+         R (dden C (nlook rho) (vd_val r2)) (dden C (nlook rho) (vd_val h)) /\ R (dden C (nlook rho) (vd_der r2)) (dden C (nlook rho) (vd_der h))).
+Proof. exact @piecewise_derivative_is_branchwise. Qed.
+
+(* the value type branches that way: `if` and `else` of the model of the value operators *)
+Theorem C18_value_type_branches :
+  (forall v c, to_bool c = Some (Some true) -> v_if v c = v) /\
+  (forall v c, to_bool c = Some (Some false) -> v_if v c = VNone) /\
+  (forall v, v_else VNone v = v) /\ (forall x v, x <> VNone -> v_else x v = x).
+Proof.
+  repeat split.
+  - intros v c H. unfold v_if. rewrite H. reflexivity.
+  - intros v c H. unfold v_if. rewrite H. reflexivity.
+  - intros x v Hx. destruct x; try reflexivity. exfalso; apply Hx; reflexivity.
+Qed.
+
+(* F14, the rule before the repair: the condition replaced by its own derivative.  A condition without the variable (the
+   constant `true`, a folded comparison) has the derivative 0, and `a' if 0 else b'` is b' although the condition holds. *)
+Theorem C18_differentiated_condition_refuted :
+  exists c c' a' b' : val, to_bool c = Some (Some true) /\ a' <> VNone /\ v_else (v_if a' c) b' = a' /\ v_else (v_if a' c') b' = b' /\ a' <> b'.
+Proof. exists (VBool true), (VInt 0), (VInt 1), (VInt 2). repeat split; try reflexivity; discriminate. Qed.
+
 Print Assumptions C18_condition_and_branch_rules_partial.
 Print Assumptions C18_derivative_keeps_the_condition.
+Print Assumptions C18_piecewise_pair.
+Print Assumptions C18_piecewise_derivative_is_branchwise.
+Print Assumptions C18_value_type_branches.
+Print Assumptions C18_differentiated_condition_refuted.
